@@ -81,14 +81,25 @@ def explore(chk, exe, h5, nconf, nvar, tag):
         cfg = P.gen_config(rng, True, allow_rfmod=True)
         if ci % 2 == 1 and not cfg.get("rfmod"):
             cfg["rfmod"] = [0.5, 45000.0, ci // 2 % 2]
+        if ci % 2 == 0:
+            # renormalisation inside the loop, a wake, and a start that is not exactly normalised: the cadence variants
+            # below make output steps coincide with renormalisation steps in one run and not in the other
+            cfg["renorm"] = rng.choice([2, 3, 4])
+            cfg["zoom"] = rng.choice([1.2, 1.5])
+            if cfg["imp"] == "none":
+                cfg["imp"] = "pp"
         cfgs.append(cfg)
         base = dict(outstep=cfg["outstep"] if cfg["outstep"] else 1, h5save=cfg["h5save"])
+        if ci % 2 == 0:
+            base["outstep"] = cfg["renorm"] + 1          # in the base run only every renorm-th output step renormalises
         D0, err = run_variant(exe, h5, cfg, base, "base")
         evals += 1
         if err:
             fails.append((cfg, base, err))
             continue
         variants = [dict(base, outstep=rng.choice([0, 1, 2, 3, 5, 1000])) for _ in range(max(1, nvar - 4))]
+        if ci % 2 == 0:
+            variants[0] = dict(base, outstep=cfg["renorm"])          # every output step is a renormalisation step
         variants += [dict(base, h5save=rng.choice([0, 1, 2])), dict(base, tracking=True), dict(base, verbose=True),
                      dict(base, name="other_name.h5"), dict(base)]
         for v in variants[:nvar]:
